@@ -63,9 +63,11 @@ static int on_url(http_parser *parser, const char *at, size_t length)
 			connection->status_code = HTTP_NOT_FOUND;
 			return -1;
 		}
-		if (handler->create != NULL) {
-			(handler->create(connection));
-		}
+		/*
+		 * The handler's create function is called when the complete
+		 * start line is known to be valid, see read_start_line().
+		 */
+		connection->url_handler = handler;
 
 		connection->parser_settings.on_header_field = handler->on_header_field;
 		connection->parser_settings.on_header_value = handler->on_header_value;
@@ -134,6 +136,18 @@ static enum bs_read_callback_return read_start_line(void *context, uint8_t *buf,
 		free_connection(connection);
 		return BS_CLOSED;
 	}
+
+	const struct url_handler *handler = connection->url_handler;
+	if ((handler != NULL) && (handler->create != NULL)) {
+		connection->url_handler = NULL;
+		if (unlikely(handler->create(connection) < 0)) {
+			connection->status_code = HTTP_INTERNAL_SERVER_ERROR;
+			send_http_error_response(connection);
+			free_connection(connection);
+			return BS_CLOSED;
+		}
+	}
+
 	return BS_OK;
 }
 int init_http_connection2(struct http_connection *connection, const struct http_server *server, struct buffered_reader *reader, bool is_local_connection,
@@ -143,6 +157,7 @@ int init_http_connection2(struct http_connection *connection, const struct http_
 	connection->status_code = 0;
 	connection->server = server;
 	connection->compression_level = compression_level;
+	connection->url_handler = NULL;
 	http_parser_settings_init(&connection->parser_settings);
 	connection->parser_settings.on_url = on_url;
 
